@@ -94,15 +94,19 @@ Definition client_lines (c : client_entity) : list line :=
   ++ map (fun m => (12, [fst m; snd m], [1])) (ce_query_methods c)
   ++ flat_map (fun s => map (fun m => (13, [fst s; fst (fst m); snd m], [snd (fst m)])) (snd s)) (ce_commands c).
 
+Definition file_pkg_of (es : list entity) : bytes := match es with e :: _ => e_pkg e | [] => [] end.
+
+(* one source file: its entity declarations (same package), whether it compiled, the descriptor
+   dump, whether the client API could be derived, the StateEntity dump in declaration order *)
 Inductive c17case :=
-| EC (e : entity) (ok : bool) (lines : list line) (client_ok : bool) (clines : list line).
+| EC (es : list entity) (ok : bool) (lines : list line) (client_ok : bool) (clines : list line).
 
 Definition c17_check (c : c17case) : bool :=
   match c with
-  | EC e ok lines cok clines =>
-      match compile e with
-      | Ok cs => ok && list_eqb line_eqb (flatten (e_pkg e) cs) lines
-                 && cok && list_eqb line_eqb (client_lines (client_view e)) clines
+  | EC es ok lines cok clines =>
+      match compile_all es with
+      | Ok cs => ok && list_eqb line_eqb (flatten (file_pkg_of es) cs) lines
+                 && cok && list_eqb line_eqb (flat_map (fun e => client_lines (client_view e)) es) clines
       | Err _ => negb ok
       | _ => false
       end
@@ -118,11 +122,11 @@ Fixpoint first_diff (i : N) (a b : list line) : option (N * option line * option
   end.
 Definition c17_diff (c : c17case) :=
   match c with
-  | EC e ok lines cok clines =>
-      match compile e with
-      | Ok cs => match first_diff 0 (flatten (e_pkg e) cs) lines with
+  | EC es ok lines cok clines =>
+      match compile_all es with
+      | Ok cs => match first_diff 0 (flatten (file_pkg_of es) cs) lines with
                  | Some d => Some d
-                 | None => first_diff 1000 (client_lines (client_view e)) clines
+                 | None => first_diff 1000 (flat_map (fun e => client_lines (client_view e)) es) clines
                  end
       | _ => None
       end
